@@ -1,12 +1,28 @@
-(* C03 — a task resumes only when all it awaits is done; start order.
-   Statements only; proofs in proofs/ProgProofs.v and proofs/MachineC02.v.
+(* C03 — a task resumes only when all it awaits is done; start order; exactly once per yield.
+   Statements only; proofs in proofs/ProgProofs.v, proofs/MachineC02.v and proofs/MachineSteps.v.
    Proved: (1) the dependencies derived from a yielded structure are exactly its futures, in reverse
    written order for list/tuple structures (with the LIFO task stack: tasks first scheduled together
    start in the order written); (2) on the machine, for tree programs, the scheduler resumes a task
-   only while it is uncomputed and every future it yielded is computed.
-   NOT proved (correspondence, monitors and the watchdog only): exactly-once per yield as a trace
-   property, never-started for never-awaited tasks, termination. *)
-From Asynq Require Import Machine Seq proofs.ProgProofs proofs.MachineC08 proofs.MachineC01 proofs.MachineC02.
+   only while it is uncomputed and every future it yielded is computed; (3) exactly-once per yield as
+   a trace property of Machine.run_case, for EVERY program (no tree restriction), parameter record,
+   history and fuel: an event [EvStep t i _] (the body of t resumed after its i-th yield) occurs at
+   most once (C03_step_at_most_once_per_yield), and the steps of a task are numbered 0,1,2,... in
+   chronological order - step i > 0 is preceded by step i-1 (C03_steps_numbered_consecutively); so the
+   k-th resume of t is the unique step numbered k-1 and there is exactly one resume per yield that is
+   resumed at all.  (4) "never runs again after it has completed": the unrestricted trace statement
+   C03_no_step_after_done_statement (no EvStep t after EvDone t) is FALSE for the faithful model
+   (C03_no_step_after_done_statement_is_false): a task re-entered through a synchronous .value() of a
+   task that awaits it can complete in the inner activation and yield again in the outer one; the
+   model then steps it again (CPython would raise "generator already executing" at the re-entry
+   instead).  Proved instead: the statement holds for every program and history in which each resume
+   finds its task uncomputed (C03_no_step_after_done_when_resumes_are_guarded), and that hypothesis
+   holds for tree programs by the C01 invariant (C03_no_step_after_done_tree; pointwise service, no
+   unwinding, one root computation from the initial state).
+   NOT proved (correspondence, monitors and the watchdog only): that a yield IS eventually resumed
+   (liveness / termination), never-started for never-awaited tasks, no-step-after-done for non-tree
+   programs without the guard hypothesis and for tree programs after a history. *)
+From Asynq Require Import Machine Seq proofs.ProgProofs proofs.MachineC08 proofs.MachineC01 proofs.MachineC02
+  proofs.MachineSteps.
 
 Theorem C03_dependencies_are_the_yielded_futures : forall (A : Type) (s : ystruct A) (a : A),
   In a (extract s) <-> In a (leaves s).
@@ -26,3 +42,53 @@ Theorem C03_resumed_only_when_everything_awaited_is_done : forall P, pointwise P
     forall x, In (RFut x) (leaves (tk_last tk)) -> computed x (c_st (run P n (start h s1))) = true.
 Proof. exact resume_guard_tree. Qed.
 Print Assumptions C03_resumed_only_when_everything_awaited_is_done.
+
+(* ---- exactly once per yield (every program; proofs/MachineSteps.v) ----
+   count_step t i tr = number of events [EvStep t i _] in tr; snd (run_case ..) is chronological. *)
+Theorem C03_step_at_most_once_per_yield : forall P fuel ps t i,
+  (count_step t i (snd (run_case P fuel ps)) <= 1)%nat.
+Proof. exact run_case_step_at_most_once. Qed.
+Print Assumptions C03_step_at_most_once_per_yield.
+
+Theorem C03_steps_numbered_consecutively : forall P fuel ps t i o l1 l2,
+  snd (run_case P fuel ps) = l1 ++ EvStep t i o :: l2 ->
+  (0 <= i)%Z /\ ((0 < i)%Z -> exists o', In (EvStep t (i - 1)%Z o') l1).
+Proof. exact run_case_steps_consecutive. Qed.
+Print Assumptions C03_steps_numbered_consecutively.
+
+(* ---- never runs again after it has completed ---- *)
+Definition C03_no_step_after_done_statement : Prop :=
+  forall P fuel ps t i o l1 l2,
+    snd (run_case P fuel ps) = l1 ++ EvStep t i o :: l2 -> forall o', ~ In (EvDone t o') l1.
+
+Theorem C03_no_step_after_done_statement_is_false : ~ C03_no_step_after_done_statement.
+Proof. exact no_step_after_done_fails. Qed.
+Print Assumptions C03_no_step_after_done_statement_is_false.
+
+(* every program and history: if each resume (mode MResume t) of each root computation finds t
+   uncomputed, no step of t follows EvDone t *)
+Theorem C03_no_step_after_done_when_resumes_are_guarded : forall P fuel ps,
+  history_guarded P fuel ps (st0 P) ->
+  forall t i o l1 l2, snd (run_case P fuel ps) = l1 ++ EvStep t i o :: l2 -> forall o', ~ In (EvDone t o') l1.
+Proof. exact run_case_no_step_after_done. Qed.
+Print Assumptions C03_no_step_after_done_when_resumes_are_guarded.
+
+Theorem C03_no_step_after_done_tree : forall P p n,
+  pointwise P -> tree p ->
+  no_unwind P n (start (fst (create [] (FTask p) (st0 P))) (snd (create [] (FTask p) (st0 P)))) ->
+  forall t i o l1 l2, snd (run_case P n [p]) = l1 ++ EvStep t i o :: l2 -> forall o', ~ In (EvDone t o') l1.
+Proof. exact tree_no_step_after_done. Qed.
+Print Assumptions C03_no_step_after_done_tree.
+
+(* non-vacuity: a tree program that yields twice runs clean; its task has steps 0, 1, 2, then EvDone *)
+Example C03_three_steps_then_done :
+  tree steps_demo /\
+  let P := mkP [] 1000 false [] in
+  let h := fst (create [] (FTask steps_demo) (st0 P)) in
+  let s1 := snd (create [] (FTask steps_demo) (st0 P)) in
+  no_unwind_b P 100 (start h s1) = true /\
+  fst (run_case P 100 [steps_demo]) = [Some (Ok (VInt 6))] /\
+  filter (fun e => match e with EvStep _ _ _ | EvDone _ _ => true | _ => false end) (snd (run_case P 100 [steps_demo])) =
+  [EvStep [0%Z] 0 (Ok VNone); EvStep [0%Z] 1 (Ok (VInt 5)); EvStep [0%Z] 2 (Ok (VInt 6)); EvDone [0%Z] (Ok (VInt 6))].
+Proof. exact (conj steps_demo_tree steps_demo_runs). Qed.
+Print Assumptions C03_three_steps_then_done.
